@@ -78,6 +78,11 @@ def main():
     viols = sorted(agg.violations, key=lambda s: s['seed'])
     extra_viols = spec.post_batch(agg, tier)
     reported = set()
+    known_by_id = {k['id']: k for k in batch.load_known()}
+    for kid, cnt in sorted(agg.known_hits.items()):
+        k = known_by_id[kid]
+        reported.add(kid)
+        known_lines.append(f'KNOWN-FINDING: property={prop} {kid}: {k["description"]} [{cnt} run(s)]')
     for s in viols[:40]:
         vclass, msg = s['viol'][0]
         case = dict(s['case'], tape=s['tape'])
